@@ -315,3 +315,82 @@ def norm_value_for_lib(t, v):
 
 def nontrivial_type(t):
     return not (t["k"] in R.INTS)
+
+
+# ------------------------------------------------------------------------------------------------
+# template-style layouts (StructTag / FixedSizeString) for C07/C08
+# ------------------------------------------------------------------------------------------------
+ATOMIC_SIZES = {"SINT": 1, "INT": 2, "DINT": 4, "LINT": 8, "USINT": 1, "UINT": 2, "UDINT": 4, "ULINT": 8,
+                "REAL": 4, "LREAL": 8, "BOOL": 1, "DWORD": 4}
+
+
+def type_size(t):
+    k = t["k"]
+    if k in ATOMIC_SIZES:
+        return ATOMIC_SIZES[k]
+    if k in R.BITS:
+        return R.BITS[k]
+    if k == "array":
+        return t["len"] * type_size(t["el"])
+    if k == "fixedstr":
+        return 4 + t["size"]
+    if k == "structtag":
+        return t["size"]
+    raise KeyError(k)
+
+
+@st.composite
+def structtags(draw, depth=1):
+    """A Logix-template-like layout: members at increasing offsets with optional gaps, BOOL members
+    packed into hidden SINT hosts, DWORD-backed BOOL arrays, nested structtags, fixed strings."""
+    n = draw(st.integers(1, 6))
+    members, bits, private = [], {}, []
+    off = 0
+    names = iter(["m%d" % i for i in range(40)])
+    for i in range(n):
+        kind = draw(st.sampled_from(["atomic", "atomic", "array", "bools", "dwords", "string"] + (["nested"] if depth else [])))
+        off += draw(st.sampled_from([0, 0, 0, 1, 2, 4]))
+        if kind == "atomic":
+            mt = T(draw(st.sampled_from(["SINT", "INT", "DINT", "LINT", "USINT", "UINT", "UDINT", "ULINT", "REAL", "LREAL"])))
+        elif kind == "array":
+            mt = T("array", len=draw(st.integers(1, 4)),
+                   el=T(draw(st.sampled_from(["SINT", "INT", "DINT", "LINT", "REAL"]))), via="factory")
+        elif kind == "dwords":
+            mt = T("array", len=draw(st.integers(1, 2)), el=T("DWORD"), via="factory")
+        elif kind == "string":
+            mt = T("fixedstr", size=draw(st.integers(1, 12)))
+        elif kind == "nested":
+            mt = draw(structtags(depth=depth - 1))
+        else:  # packed BOOL members in a hidden host byte
+            host = "ZZZZZZZZZZhost%d" % i
+            members.append([host, T("SINT"), off])
+            private.append(host)
+            nb = draw(st.integers(1, 8))
+            for b in draw(st.permutations(range(8)))[:nb]:
+                bits[next(names)] = [off, b]
+            off += 1
+            continue
+        name = next(names)
+        if draw(st.integers(0, 9)) == 0:
+            name = "__hidden%d" % i
+            private.append(name)
+        members.append([name, mt, off])
+        off += type_size(mt)
+    size = off + draw(st.sampled_from([0, 0, 1, 3]))
+    return T("structtag", size=max(size, 1), members=members, bits=bits, private=private)
+
+
+@st.composite
+def structtag_values(draw, t):
+    v = {}
+    private = set(t["private"])
+    for name, mt, off in t["members"]:
+        if name in private:
+            continue
+        if mt["k"] == "structtag":
+            v[name] = draw(structtag_values(mt))
+        else:
+            v[name] = draw(values(mt))
+    for name in t["bits"]:
+        v[name] = draw(st.booleans())
+    return v
